@@ -5,7 +5,7 @@
 From Coq Require Import List ZArith QArith Bool.
 Import ListNotations.
 Require Import QV.C09.Model QV.C09.Corr QV.C09.Proofs QV.C09.Proofs2 QV.C09.Proofs3 QV.C09.Proofs4 QV.C09.Proofs5 QV.C09.Proofs6
-               QV.C09.Proofs6x QV.C09.Proofs7 QV.C09.Proofs7x QV.C09.Proofs8 QV.C09.ProofsR QV.C09.ProofsE QV.C09.ProofsF QV.C09.Proofs9 QV.C09.Proofs10 QV.C09.ProofsN QV.C09.ProofsL.
+               QV.C09.Proofs6x QV.C09.Proofs7 QV.C09.Proofs7x QV.C09.Proofs8 QV.C09.ProofsR QV.C09.ProofsE QV.C09.ProofsF QV.C09.Proofs9 QV.C09.Proofs10 QV.C09.ProofsN QV.C09.ProofsL QV.C09.ProofsS QV.C09.ProofsG.
 
 (* every freshly constructed tree (Loop(...) with nested children, any counts / waveforms / measurements) satisfies Inv *)
 Theorem C09_init : forall t, sInv (init_state t).
@@ -376,6 +376,42 @@ Theorem C09_add_measurements_nonvacuous :
   meas_at (run (init_state nv_init) am_ops) [] = Some (Some [(9, 104%Q, 1%Q)]).
 Proof. exact add_measurements_nonvacuous. Qed.
 Print Assumptions C09_add_measurements_nonvacuous.
+
+(* round 6: Loop.flatten_and_balance(depth) on ANY live node x of a state with Inv, any depth (also depths that make the loop
+   encapsulate, recurse into a child with depth - 1, merge single children, or unroll): Inv is kept and x stays live.  Like
+   every per-operation theorem under ok_result res (the run did not end in the model artefacts ExFuel / ExDangling; the
+   model's loop has fuel 1500, the code's while loop has none).  Proof: induction on the fuel with the frame Fr (outside
+   the subtree of x only caches change) as loop invariant; new frame lemmas for encapsulate and for unroll of a child. *)
+Theorem C09_flatten_preserves : forall h r x vctr depth h' res,
+  Inv h r -> reach h r x -> flatten_and_balance vctr depth x h = (h', res) -> ok_result res -> Inv h' r /\ reach h' r x.
+Proof. exact flatten_and_balance_inv. Qed.
+Print Assumptions C09_flatten_preserves.
+
+Theorem C09_flatten_nonvacuous :
+  match flatten_and_balance 0 2 nv_root nv_heap with (h', R tt) => (length nv_heap <? length h')%nat = true | _ => False end /\
+  match flatten_and_balance 0 1 nv_root nv_heap with (h', R tt) => (length nv_heap <? length h')%nat = true | _ => False end.
+Proof. exact flatten_nonvacuous. Qed.
+Print Assumptions C09_flatten_nonvacuous.
+
+(* round 6, clause S4 for two structural operations (was: by inspection): on a live node of a state with Inv, unroll /
+   unroll_children raise a Python exception only BEFORE anything is stored - the heap is unchanged - and only the
+   documented ones (unroll: RuntimeError on a leaf, TypeError without a parent; unroll_children: RuntimeError on a leaf);
+   in particular the slice assignment of the copies into the parent cannot be rejected *)
+Theorem C09_failed_unroll_no_effect : forall h r x h' e, Inv h r -> reach h r x -> e <> ExFuel -> e <> ExDangling ->
+  (unroll x h = (h', E e) -> h' = h /\ (e = ExRuntime \/ e = ExType)) /\
+  (unroll_children x h = (h', E e) -> h' = h /\ e = ExRuntime).
+Proof.
+  intros h r x h' e I Rx N1 N2. split; intros H.
+  - exact (unroll_fail_no_effect h r x h' e I Rx H N1 N2).
+  - exact (unroll_children_fail_no_effect h r x h' e I Rx H N1 N2).
+Qed.
+Print Assumptions C09_failed_unroll_no_effect.
+
+Theorem C09_failed_unroll_nonvacuous :
+  unroll 0%nat nv_heap = (nv_heap, E ExRuntime) /\ unroll nv_root nv_heap = (nv_heap, E ExType) /\
+  unroll_children 0%nat nv_heap = (nv_heap, E ExRuntime).
+Proof. exact failed_unroll_nonvacuous. Qed.
+Print Assumptions C09_failed_unroll_nonvacuous.
 
 (* the model's own observation passes the check that is applied to the implementation's observation *)
 Definition obs_ok (s : state) : bool :=
